@@ -205,6 +205,12 @@ func (m *Mux) handlePendingPackets(endpoint *Endpoint, matchFunc MatchFunc) {
 	m.lock.Lock()
 	defer m.lock.Unlock()
 
+	// The endpoint may have been removed by now: what has been queued since then
+	// waits for an endpoint that does not exist yet.
+	if _, registered := m.endpoints[endpoint]; !registered {
+		return
+	}
+
 	m.flushPendingPackets(endpoint, matchFunc)
 }
 
